@@ -48,3 +48,11 @@ impl From<&'static [u8]> for Bytes {
         Bytes { v: v.to_vec() }
     }
 }
+/// harness constructors shared with the LenBytes model (only so that every harness file compiles in
+/// both variants; the LenBytes lemmas are never run on this model)
+pub fn vbytes(len: usize, blob: u32) -> Bytes {
+    Bytes { v: vec![blob as u8; len] }
+}
+pub fn is_window(b: &Bytes, _blob: u32, _off: usize, len: usize) -> bool {
+    b.v.len() == len
+}
